@@ -219,4 +219,59 @@ def checkoutFileCalls (isEmp : κ → Bool) (strat : Strat) (w : P) (wasExactLin
   | .copy => (if wasExactLink then [.unlink w] else []) ++ [.createExcl w] ++
              (if isEmp c then [] else [.writePart w, .write w c])
 
+/-! ## traced checkout (added for C18; mirrors `checkoutFile` / `checkoutChildren` / `checkoutNode`) -/
+
+/-- traced `checkoutFile`: same result as `checkoutFile`, plus the calls -/
+def checkoutFileT (t : TCfg κ) (w : P) (cur : Option (Node κ)) (sum : Digest) (s : Store κ) :
+    Except Err (Node κ × List (Call κ)) :=
+  match checkoutFile t.ctx t.strat cur sum s with
+  | .error e => .error e
+  | .ok r =>
+    if upToDateCopy t.ctx cur sum then .ok (r, [])
+    else match s.get sum with
+      | none => .ok (r, [])
+      | some o => .ok (r, checkoutFileCalls t.isEmp t.strat w (quick s sum cur).cm (o.bytes t.ctx) sum)
+
+/-- traced `checkoutWorker` loop; `f` is `checkoutNodeT` one level down and receives the child's
+workspace path: the directory's path joined with the manifest entry's `Path` AS IS
+(`filepath.Join(workPath, childArt.Path)` without validation) -/
+def checkoutChildrenT
+    (f : List Name → Option (Node κ) → Child → Except Err (Node κ × List (Call κ)))
+    (pre : List Name) :
+    List (Name × Node κ) → List Child → Except Err (List (Name × Node κ) × List (Call κ))
+  | es, [] => .ok (es, [])
+  | es, c :: cs =>
+    match f (pre ++ [c.name]) (alookup es c.name) c with
+    | .error e => .error e
+    | .ok (n, calls1) =>
+      match checkoutChildrenT f pre (setEntry es c.name n) cs with
+      | .error e => .error e
+      | .ok (es', calls2) => .ok (es', calls1 ++ calls2)
+
+/-- traced `checkoutDir` / `checkoutFile` dispatch; `MkdirAll(workPath)` issues a `mkdir` only when
+the directory is absent -/
+def checkoutNodeT (t : TCfg κ) (s : Store κ) :
+    Nat → List Name → Option (Node κ) → Child → Except Err (Node κ × List (Call κ))
+  | 0, _, _, _ => .error .other
+  | fuel+1, pre, cur, c =>
+    if c.isDir then
+      if !hasSum c.sum then .error .invalidSum
+      else if !s.has c.sum then .error .missingFromCache
+      else
+        match cur with
+        | some (.dir es) =>
+          match readManifest t.ctx s c.sum with
+          | .error e => .error e
+          | .ok cs => match checkoutChildrenT (checkoutNodeT t s fuel) pre es cs with
+            | .error e => .error e
+            | .ok (es', calls) => .ok (.dir es', calls)
+        | none =>
+          match readManifest t.ctx s c.sum with
+          | .error e => .error e
+          | .ok cs => match checkoutChildrenT (checkoutNodeT t s fuel) pre [] cs with
+            | .error e => .error e
+            | .ok (es', calls) => .ok (.dir es', .mkdir (.ws pre) :: calls)
+        | some _ => .error .exists_
+    else checkoutFileT t (.ws pre) cur c.sum s
+
 end Dud.Sys
